@@ -685,7 +685,11 @@ impl<T: GseDecapMemory, C: CrcCalculator, MHEM: MandatoryHeaderExtensionManager>
             < gse_len
         {
             self.last_label = None;
-            self.memory.provision_storage(pdu_buffer).unwrap();
+            // the storage may come from a replaced context while the free list is full:
+            // the buffer is then handed back to the caller inside the error
+            if let Err(err) = self.memory.provision_storage(pdu_buffer) {
+                return Err((DecapError::ErrorMemory(err), pkt_len));
+            }
             return Err((DecapError::ErrorSizePduBuffer, pkt_len));
         }
 
@@ -735,7 +739,9 @@ impl<T: GseDecapMemory, C: CrcCalculator, MHEM: MandatoryHeaderExtensionManager>
         let pdu_buffer_len = pdu_buffer.len();
 
         if pdu_buffer_len < calculed_pdu_len {
-            self.memory.provision_storage(pdu).unwrap();
+            if let Err(err) = self.memory.provision_storage(pdu) {
+                return Err((DecapError::ErrorMemory(err), pkt_len));
+            }
             return Err((DecapError::ErrorSizePduBuffer, pkt_len));
         }
         pdu_buffer[..calculed_pdu_len].copy_from_slice(&buffer[offset..offset + calculed_pdu_len]);
@@ -785,7 +791,9 @@ impl<T: GseDecapMemory, C: CrcCalculator, MHEM: MandatoryHeaderExtensionManager>
         let pdu_buffer_len = pdu_buffer.len();
 
         if pdu_buffer_len < calculed_pdu_len {
-            self.memory.provision_storage(pdu).unwrap();
+            if let Err(err) = self.memory.provision_storage(pdu) {
+                return Err((DecapError::ErrorMemory(err), pkt_len));
+            }
             return Err((DecapError::ErrorSizePduBuffer, pkt_len));
         }
 
@@ -814,7 +822,9 @@ impl<T: GseDecapMemory, C: CrcCalculator, MHEM: MandatoryHeaderExtensionManager>
 
         let total_len_received = (pdu_len + PROTOCOL_LEN + first_label_len) as u16;
         if decap_context.total_len != total_len_received {
-            self.memory.provision_storage(pdu).unwrap();
+            if let Err(err) = self.memory.provision_storage(pdu) {
+                return Err((DecapError::ErrorMemory(err), pkt_len));
+            }
             return Err((DecapError::ErrorTotalLength, pkt_len));
         }
 
@@ -826,7 +836,9 @@ impl<T: GseDecapMemory, C: CrcCalculator, MHEM: MandatoryHeaderExtensionManager>
         );
 
         if calculted_crc != received_crc {
-            self.memory.provision_storage(pdu).unwrap();
+            if let Err(err) = self.memory.provision_storage(pdu) {
+                return Err((DecapError::ErrorMemory(err), pkt_len));
+            }
             return Err((DecapError::ErrorCrc, pkt_len));
         }
 
